@@ -209,6 +209,7 @@ func (x *freeRun) serve(e, sid int, st *multiplexing.Stream) {
 	x.wg.Add(2)
 	go x.writer(e, sid, st)
 	go x.reader(e, sid, st)
+
 	if x.rngFor(e, sid, 4).Intn(100) < x.in.Racers {
 		x.wg.Add(1)
 		go x.racer(e, sid, st)
@@ -368,6 +369,10 @@ func absInt(v int) int {
 func randomScript(rng *rand.Rand) scriptIn {
 	// configuration edge cases included: window 0 / negative (no inbound data), backlog 0 (means 1), buffer count -1 (means 1)
 	in := scriptIn{Mode: "script", W: []int{1, 2, 3, 7, 1, 2, 0, -1}[rng.Intn(8)], B: rng.Intn(3), Bufs: []int{1, 2, 5, -1}[rng.Intn(4)]}
+	if rng.Intn(5) == 0 {
+		in.IDTop = 3 // identifiers 1..3 stand for MaxUint64-2 .. MaxUint64: exhaustion after 2 opens (odd side) / 1 open (even side)
+	}
+	inject := rng.Intn(6) == 0
 	n := 25 + rng.Intn(40)
 	nopen := [2]int{}
 	ids := func(e int) []int {
@@ -389,8 +394,12 @@ func randomScript(rng *rand.Rand) scriptIn {
 			}
 			return all[rng.Intn(len(all))]
 		}
+		if inject && rng.Intn(12) == 0 {
+			in.Steps = append(in.Steps, step{Op: "inject", E: e, S: 1 + rng.Intn(6), N: rng.Intn(6)})
+			continue
+		}
 		switch x := rng.Intn(100); {
-		case x < 8 && nopen[e] < 3:
+		case x < 8 && nopen[e] < 4:
 			in.Steps = append(in.Steps, step{Op: "open", E: e})
 			nopen[e]++
 		case x < 16:
